@@ -133,8 +133,8 @@ func init() {
 			if cl != nil {
 				secret = cl.Secret
 			}
-		case "wrong":
-			secret = "wrong-secret-000"
+		case "wrong", "invented":
+			secret = "wrong-secret-000" // for a client without a secret: an invented one
 		}
 		verifier := ""
 		switch opt(st.L, "verifier", "absent") {
@@ -745,6 +745,9 @@ func (w *vfWorld) observePresent(ctx *vfReqCtx, pr *vfPresent, resp *vfResp) {
 			}
 		}
 	}
+	if pr.Consumer == "userinfo" && a.Kind == "access" && a.Forged == "" && honoured && time.Now().After(a.Exp.Add(time.Second)) {
+		w.violate("C12", "userinfo-opened-by-other", "userinfo-opened-by-other:expired-access", fmt.Sprintf("userinfo answered 200 to an access token that expired %v ago", time.Since(a.Exp).Round(time.Second)))
+	}
 	if pr.Consumer == "userinfo" && a.Kind != "access" && honoured {
 		w.violate("C12", "userinfo-opened-by-other", "userinfo-opened-by-other:"+a.Kind, fmt.Sprintf("userinfo answered 200 to a %s artefact", a.Kind))
 	}
@@ -847,10 +850,14 @@ func genTokenPlan(r *rand.Rand, tier, focus string) *vfPlan {
 			l := []string{"secret:" + pick(r, []string{"right", "right", "wrong", "absent"}), "verifier:" + pick(r, []string{"absent", "absent", "right", "wrong", "challenge"}),
 				"redirect:" + pick(r, []string{"same", "same", "same", "other", "extend", "hostsuffix"}), "auth:" + pick(r, []string{"header", "form", "header-empty"})}
 			if cl == "clientB" || cl == "clientD" {
-				l[0] = "secret:absent"
+				l[0] = "secret:" + pick(r, []string{"absent", "absent", "absent", "invented"})
 				l[1] = "verifier:" + pick(r, []string{"right", "right", "wrong", "absent", "challenge"})
 			}
 			add(vfStep{Op: "oidc_token", A: art, B: cl, L: l})
+		case x < 48 && focus == "C12":
+			// an access token presented once the 16 hours of its authorization have passed (and shortly before)
+			add(vfStep{Op: "advance", D: pick(r, []string{"15h50m", "16h1m", "17h", "40h"})})
+			add(vfStep{Op: "oidc_userinfo", A: "last:access", L: []string{"via:" + pick(r, []string{"header", "form"})}})
 		case x < 55:
 			add(vfStep{Op: "oidc_userinfo", A: "last:" + pick(r, []string{"access", "access", "idtoken", "cookie", "code"}), L: []string{"via:" + pick(r, []string{"header", "form"})}})
 		case x < 62:
